@@ -88,6 +88,12 @@ class HarnessFile:
                 continue
             m = re.match(r"\s*(?:pub\s+)?fn\s+([A-Za-z0-9_]+)\s*\(", line)
             if m and pending:
+                if "like" in pending:
+                    base = [h for h in self.harnesses if h.name == pending["like"]]
+                    if base:
+                        merged = dict(base[0].meta)
+                        merged.update(pending)
+                        pending = merged
                 self.harnesses.append(Harness(m.group(1), pending, self))
                 pending = {}
 
@@ -112,6 +118,20 @@ def load_registry():
             if "attach" in hf.header:
                 files.append(hf)
     return files
+
+
+def with_required(files, hfiles):
+    """Add the harness-support files named by `//@@ requires:` lines (transitively)."""
+    by_base = {hf.base: hf for hf in files}
+    out = list(hfiles)
+    i = 0
+    while i < len(out):
+        for req in out[i].multi.get("requires", []):
+            hf = by_base.get(req.strip())
+            if hf and hf.base not in [o.base for o in out]:
+                out.append(hf)
+        i += 1
+    return out
 
 
 def select(files, prop, tier, only=None):
@@ -195,12 +215,17 @@ class Scratch:
                 else:
                     self.notes.append("rewrite applied: " + spec)
             with open(target, "a") as f:
-                f.write("\n#[cfg(kani)]\n#[path = \"%s\"]\nmod %s;\n" % (dst, hf.modname))
+                f.write("\n#[cfg(kani)]\n#[path = \"%s\"]\npub(crate) mod %s;\n" % (dst, hf.modname))
         for crate in crates:
             lib = os.path.join(self.dir, crate, "src", "lib.rs")
+            sup = open(os.path.join(HARNESS_DIR, "support.rs")).read()
+            if crate != "searchlite-core":
+                sup = re.sub(r"// BEGIN core-only.*?// END core-only", "", sup, flags=re.S)
+            sup_path = os.path.join(hdir, "support_%s.rs" % crate.replace("-", "_"))
+            with open(sup_path, "w") as f:
+                f.write(sup)
             with open(lib, "a") as f:
-                f.write("\n#[cfg(kani)]\n#[path = \"%s\"]\npub mod verif_support;\n"
-                        % os.path.join(hdir, "support.rs"))
+                f.write("\n#[cfg(kani)]\n#[path = \"%s\"]\npub mod verif_support;\n" % sup_path)
                 if os.path.isfile(os.path.join(hdir, "models", "mod.rs")):
                     f.write("#[cfg(kani)]\n#[path = \"%s\"]\npub mod verif_models;\n"
                             % os.path.join(hdir, "models", "mod.rs"))
@@ -208,9 +233,9 @@ class Scratch:
 
 
 def apply_rewrite(root, spec):
-    """spec: '<relative file> :: <old text> => <new text>' — textual rewrite of a
+    """spec: '<relative file> :: <old text> ==> <new text>' — textual rewrite of a
     type path in the scratch copy (container abstraction, DESIGN §2.2)."""
-    m = re.match(r"(\S+)\s*::\s*(.*?)\s*=>\s*(.*)$", spec)
+    m = re.match(r"(\S+)\s*::\s*(.*?)\s*==>\s*(.*)$", spec)
     if not m:
         return False, "bad spec"
     rel, old, new = m.group(1), m.group(2), m.group(3)
@@ -573,6 +598,7 @@ def run_check(prop, tier, only, keep, jobs):
         for h in harnesses:
             if h.file not in hfiles:
                 hfiles.append(h.file)
+        hfiles = with_required(files, hfiles)
         problems = scratch.attach(hfiles)
         if problems:
             for p in problems:
@@ -587,6 +613,27 @@ def run_check(prop, tier, only, keep, jobs):
             rc, out, data, wall = run_kani(scratch, crate, names, per_t, mem_kb, jobs)
             with open(os.path.join(scratch.dir, "kani-%s.log" % crate), "w") as f:
                 f.write(out)
+            compile_error = "could not compile" in out or "Failed to execute cargo" in out
+            if compile_error:
+                log("[%s] harness code does not compile against the current source (inconclusive)" % prop)
+            if data is None and len(names) > 1 and not compile_error:
+                # kani-driver occasionally aborts a whole -j run (e.g. its CBMC output parser
+                # panics on one harness): fall back to one invocation per harness so that one
+                # bad harness cannot hide the verdicts of the others.
+                log("[%s] combined run produced no result file (rc=%s); re-running harnesses one by one" % (prop, rc))
+                merged = {"verification_results": {"results": []}, "cbmc": [], "error_details": []}
+                outs = [out]
+                for n in names:
+                    rc1, out1, d1, w1 = run_kani(scratch, crate, [n], per_t, mem_kb, 1, tag="solo-" + n)
+                    outs.append(out1)
+                    if d1:
+                        merged["verification_results"]["results"] += d1.get("verification_results", {}).get("results", [])
+                        merged["cbmc"] += d1.get("cbmc", [])
+                        merged["error_details"] += d1.get("error_details", [])
+                    else:
+                        tail = "\n".join(out1.strip().split("\n")[-12:])
+                        log("[%s] %s: no result (rc=%s): %s" % (prop, n, rc1, tail[-700:]))
+                data, out = merged, "\n".join(outs)
             vs = summarize(data, out, names)
             verdicts.update(vs)
             if data is None:
@@ -705,6 +752,31 @@ def run_replay(prop, path):
         scratch.remove()
 
 
+def run_setup():
+    """Build the dependency artefacts once (pure cache, see Scratch.create)."""
+    t0 = time.time()
+    scratch = Scratch("setup")
+    try:
+        shutil.rmtree(os.path.join(CACHE_DIR, "kt"), ignore_errors=True)
+        scratch.create()
+        scratch.attach([])
+        for crate in ("searchlite-core", "searchlite-ffi"):
+            cmd = ["cargo", "kani", "-p", crate, "-Z", "stubbing", "-Z", "unstable-options",
+                   "--only-codegen", "--target-dir", os.path.join(scratch.dir, "kt")]
+            p = subprocess.run(cmd, cwd=scratch.dir, env=kani_env(), stdout=subprocess.PIPE,
+                               stderr=subprocess.STDOUT, text=True)
+            log("[setup] %s: rc=%d %s" % (crate, p.returncode, p.stdout.strip().split("\n")[-1][:200]))
+            if p.returncode != 0:
+                log(p.stdout[-3000:])
+                return 1
+        os.makedirs(CACHE_DIR, exist_ok=True)
+        subprocess.check_call(["cp", "-a", os.path.join(scratch.dir, "kt"), os.path.join(CACHE_DIR, "kt")])
+        log("[setup] dependency cache ready in %.0fs" % (time.time() - t0))
+        return 0
+    finally:
+        scratch.remove()
+
+
 def main():
     ap = argparse.ArgumentParser()
     ap.add_argument("prop", nargs="?")
@@ -715,12 +787,16 @@ def main():
     ap.add_argument("--replay")
     ap.add_argument("--list", action="store_true")
     ap.add_argument("--selftest", action="store_true")
+    ap.add_argument("--setup", action="store_true")
+    ap.add_argument("--prepare", action="store_true", help="build the scratch copy with harnesses attached, print its path and stop (debugging aid)")
     a = ap.parse_args()
     if a.list:
         for hf in load_registry():
             for h in hf.harnesses:
                 print("%-8s %-9s %-44s %s" % (",".join(h.props), h.tier, h.name, hf.base))
         return 0
+    if a.setup:
+        return run_setup()
     if a.selftest:
         import selftest
         return selftest.main()
@@ -729,6 +805,18 @@ def main():
     if a.replay:
         return run_replay(a.prop, a.replay)
     only = [x for x in a.only.split(",") if x]
+    if a.prepare:
+        hs = select(load_registry(), a.prop, "thorough", only)
+        s = Scratch(a.prop + "-dbg")
+        s.create()
+        hf = []
+        for h in hs:
+            if h.file not in hf:
+                hf.append(h.file)
+        hf = with_required(load_registry(), hf)
+        print(s.attach(hf))
+        print(s.dir)
+        return 0
     return run_check(a.prop, a.tier, only, a.keep, a.jobs)
 
 
